@@ -228,6 +228,45 @@ theorem paths_agree (v : View) (idx : List Int) :
         rw [this, hoff, Int.mul_comm]; omega
     exact this v.lay idx hwf hin hz
 
+/-- `halved()` is not named by the property (the run exercises it); on a well-formed leading level of even size it IS
+    `partitioned(2)`, as the code has it (`layout().halve()` vs the `layout_t<D+1>` built by `partitioned_aux_`) -/
+theorem halved_eq_partitioned (b : Int) (d : Dim) (sub : Layout) (hd : d.WF) (heven : d.size.tmod 2 = 0) :
+    View.halved ⟨b, d :: sub⟩ = View.partitioned ⟨b, d :: sub⟩ 2 := by
+  have key : d.stride * d.size.tdiv 2 = d.nelems.tdiv 2 := by
+    rcases hd.cases with h0 | ⟨f, n, hn, hs, _, hne, _, hsz⟩
+    · simp [Dim.size, h0]
+    · rw [hsz] at heven ⊢
+      rw [hne]
+      have hn0 : 0 ≤ n := by omega
+      rw [Int.tmod_eq_emod_of_nonneg hn0] at heven
+      rw [Int.tdiv_eq_ediv_of_nonneg hn0]
+      have h2 : n = 2 * (n / 2) := by omega
+      have hns : 0 ≤ n * d.stride := Int.mul_nonneg hn0 (by omega)
+      rw [Int.tdiv_eq_ediv_of_nonneg hns]
+      have : n * d.stride = 2 * ((n / 2) * d.stride) := by
+        conv => lhs; rw [h2]
+        rw [Int.mul_assoc]
+      rw [this, Int.mul_ediv_cancel_left _ (by decide : (2:Int) ≠ 0), Int.mul_comm]
+  simp [View.halved, View.partitioned, Layout.halve, Layout.take, key]
+
+/-- hence `halved()` denotes `(p, q, r…) ↦ (p·(size/2) + q, r…)` with shape `(2, size/2, …)`, like `partitioned(2)` -/
+theorem halved_refines (v : View) (hwf : v.lay.WF) (hd : (Op.partitioned 2).InDomain v) :
+    Refines v v.halved ((Op.partitioned 2).specShape v.exts) ((Op.partitioned 2).specMap v.exts) := by
+  have h := partitioned_refines v 2 hwf hd
+  obtain ⟨hne, _, ⟨q, hq⟩⟩ := hd
+  cases hv : v.lay with
+  | nil => exact absurd hv hne
+  | cons d sub =>
+    have hdwf : d.WF := by rw [hv] at hwf; exact hwf.head
+    rw [View.ext_cons hv, ← hdwf.size_eq] at hq
+    have heven : d.size.tmod 2 = 0 := by rw [hq]; exact Int.mul_tmod_right 2 q
+    have e : v.halved = v.partitioned 2 := by
+      have := halved_eq_partitioned v.base d sub hdwf heven
+      cases v with
+      | mk b l => simp only at hv; subst hv; exact this
+    rw [e]; exact h
+
+
 /-- A broadcasted view designates its source view at every index of the added leading dimension. -/
 theorem broadcast_designates_source (v : View) (junk i : Int) : (v.broadcasted junk).index i = v := by
   simp [View.broadcasted, View.index]
